@@ -13,6 +13,10 @@ CHECKS = {
          "held on everything observed: ~1 400 atomic probes (name class x position) x 2 modes plus all type-expression chains to depth 2 (quick) / 3 (thorough) at five sites; oracle self-tested on positive/negative corpora each run", "4 C01"),
  "C02": ("exploration", "runtime monitor: the four generated modules are parsed and every type/value reference is resolved by a module-graph resolver; duplicates and index.ts re-exports compared with the files the run wrote",
          "held on everything observed: custom struct/enum at 18-22 structural positions x 5 sites x 2 modes, event layouts (same event from several places, colliding identifiers, none), seeded compound projects; counter references_resolved says how many references were checked", "4 C02"),
+ "C03": ("exploration", "runtime monitor: generated directory layouts with ground truth; wrappers identified by the decoded invoke literal and compared with the expected command set",
+         "held on everything observed: 400 (quick) / 5 000 (thorough) layouts of 1-8 files at depth 0-4 with 7 attribute spellings, 4 visibilities, sync/async, 9 decoy kinds, target/ .git/ non-.rs and unparsable neighbours; evidence counts commands expected and decoys planted", "4 C03"),
+ "C04": ("exploration", "runtime monitor: delivered key set computed symbolically from the parsed invoke call site and compared with heck (Tauri's renaming) / real serde rename_all",
+         "held on everything observed: commands with 0-6 parameters mixing value, channel and 16 injected spellings, 24 snake_case name shapes, 8 default_parameter_case values, both modes; optionality iff Option; same key set in both modes", "4 C04"),
  "C05": ("exploration", "runtime monitor: real CLI on generated projects; every emitted type parsed by the TS/Zod oracle and compared with the reference denotation M (re-validated against real serde_json each run)",
          "held on everything observed: all chains of 18 constructor slots over 7 leaves to depth 2 (quick) / 3 (thorough) at the five sites in both modes, every primitive spelling, seeded deeper trees; mismatches equal to a recorded defect model are KNOWN-FINDINGs, anything else is a VIOLATION", "4 C05"),
  "C06": ("translation_validation", "runtime monitor: identical struct/enum definitions compiled against real serde_derive/serde_json (oracle crate) and fed to the real CLI; decoded keys/literals compared name by name",
